@@ -38,12 +38,16 @@ def iso_workloads():
         out.append((db, INV2))
         out.append((db, PITZ if db in ("pitzer.dat",) else SPEC))
         out.append((db, KIN))
+    out.append(("phreeqc.dat", TRN + TRN.replace(" -shifts 5", " -shifts 2") + TRN.replace(" -shifts 5", " -shifts 3")))
+    out.append(("phreeqc.dat", TRN))
+    out.append(("phreeqc.dat", ADV))
+    out.append(("wateq4f.dat", TRN))
     return out
 
 
-def run_iso(exe, pairs, timeout=300):
+def run_iso(exe, pairs, timeout=300, recycle=False):
     with vlib.scratch("c06iso") as d:
-        args = []
+        args = ["--recycle"] if recycle else []
         for k, (db, t) in enumerate(pairs):
             p = os.path.join(d, "i%d.pqi" % k)
             open(p, "w").write(t)
@@ -138,13 +142,21 @@ def run(ctx):
     pairs += [((da, INV2), (db, INV2)) for da in ("llnl.dat", "phreeqc.dat", "pitzer.dat") for db in ("phreeqc.dat", "llnl.dat", "sit.dat") if da != db]
     import concurrent.futures as cf
 
-    def iso(pr):
-        a, b = pr
+    trn = [w for w in wl if "TRANSPORT" in w[1] or "ADVECTION" in w[1]]
+    recyc = {k: (k % 2 == 1) for k in range(len(pairs))}      # every other pair: predecessor destroyed before the successor is created
+    for a in trn:
+        for b in trn[1:]:
+            for r in (False, True):
+                recyc[len(pairs)] = r
+                pairs.append((a, b))
+
+    def iso(kpr):
+        k, (a, b) = kpr
         if b not in alone:
             alone[b] = run_iso(iexe, [b])
-        return run_iso(iexe, [a, b]), alone[b]
+        return run_iso(iexe, [a, b], recycle=recyc[k]), alone[b]
     with cf.ThreadPoolExecutor(max_workers=vlib.NCPU) as ex:
-        isores = list(ex.map(iso, pairs))
+        isores = list(ex.map(iso, list(enumerate(pairs))))
     for (a, b), (both, ref) in zip(pairs, isores):
         ctx.case("iso:" + vlib.key_of([a, b]), nontrivial=a[0] != b[0], sample={"first": a[0], "then": b[0]} if len(ctx.samples) < 3 else None)
         if both is None or ref is None:
